@@ -41,6 +41,17 @@ func mustTime(s string) time.Time {
 // zeroFirstTable(0) is fixed and boundary-heavy; others are seeded.
 func zeroFirstTable(n int, seed int64) *vtable {
 	t := &vtable{name: fmt.Sprintf("zero-first-%d", n), vals: map[int][]any{}}
+	if n == 7 {
+		// table 0 with two ranks of the time kind that are the same instant in two zones (for the
+		// families whose values never leave memory: there the zone is part of the value)
+		base := zeroFirstTable(0, seed)
+		for k, v := range base.vals {
+			t.vals[k] = v
+		}
+		t.vals[jsonapi.AttrTypeTime] = []any{time.Time{}, mustTime("2001-02-03T12:00:00.5Z"), mustTime("2001-02-03T14:00:00.5+02:00"),
+			mustTime("2001-02-03T07:00:00.5-05:00")}
+		return t
+	}
 	if n == 0 {
 		t.vals[jsonapi.AttrTypeString] = []any{"", "a\\u0026b\\u003c\\u003e", "\x00<&>\"\\é漢\U0001F600", "null"} // rank 1: a literal backslash before u0026: the text of a JSON escape; rank 3: a text that spells a JSON literal
 		t.vals[jsonapi.AttrTypeInt] = []any{int(0), int(-1), int(math.MaxInt64), int(math.MinInt64)}
